@@ -29,6 +29,8 @@ func init() {
 			ruleC08Adapters(c)
 			ruleC08TxComplete(c)
 			ruleListenerRegistered(c, "C08.REGISTER", "AddTxCompleteListener", "txCompleteListeners")
+			ruleRegistrationReachesPhase(c, "C08.LISTENERREG", "post")
+			ruleListenersKept(c, "C08.LISTENERSKEPT", "txCompleteListeners")
 			ruleC08Actions(c)
 			ruleCtxIdentity(c, "C08.CTXIDENTITY")
 			// updates and deletes through the parent reach a child store only through its registered strategy
@@ -107,6 +109,7 @@ func init() {
 			ruleC17NoCache(c)
 			ruleListenerRegistered(c, "C17.LISTENERS", "AddRestoreListener", "restoreListeners")
 			ruleReadLoop(c, "C17.READLOOP")
+			ruleListenersKept(c, "C17.LISTENERSKEPT", "restoreListeners", "txCompleteListeners")
 		},
 	})
 }
@@ -932,6 +935,37 @@ func ruleC16WriteOnce(c *Ctx) {
 				ok, why = reachedOnlyOnCreate(fn, 0)
 			}
 			c.Check(ok, "C16.WRITEONCE", name+": writes "+fieldName, p.Pos(call.Pos()), "the system flag is written only under ctx.IsCreate (create path)", "the system flag can be written on a path that is not the create path: "+why+" — an update could turn an ordinary entity into a system entity or back")
+			// ... and only ever as true: the create path also runs for the parent part of an entity that
+			// already exists (a child store created on top of it); writing false there would turn a system
+			// entity into an ordinary one, from whatever context
+			var flagVal ssa.Value
+			for _, a := range call.Common().Args {
+				if b, isB := a.Type().Underlying().(*types.Basic); isB && b.Kind() == types.Bool {
+					flagVal = a
+				}
+			}
+			if flagVal != nil {
+				onlyTrue := false
+				if k, isK := flagVal.(*ssa.Const); isK && k.Value != nil && k.Value.Kind() == constant.Bool && constant.BoolVal(k.Value) {
+					onlyTrue = true
+				}
+				if !onlyTrue {
+					cv := fi.canon(flagVal)
+					onlyTrue = fi.HoldsWhere(call.Block(), func(f Fact) bool {
+						if f.Kind != "true" || !f.Pol {
+							return false
+						}
+						if f.V == flagVal || fi.canon(f.V) == cv {
+							return true
+						}
+						// two loads of the same field of the same object
+						f1, b1 := loadedField(f.V)
+						f2, b2 := loadedField(flagVal)
+						return f1 != nil && sameVar(f1, f2) && b1 == b2
+					})
+				}
+				c.Check(onlyTrue, "C16.WRITEONCE", name+": value written to "+fieldName, p.Pos(call.Pos()), "the flag is only ever written as true", "the system flag is written with a value that may be false: where the create path runs over an entity that already exists (the parent part of a child-store create) a stored true is overwritten, and the system entity becomes an ordinary one")
+			}
 		}
 	}
 	c.Floor("C16.WRITEONCE", 1)
